@@ -80,11 +80,11 @@ Definition apply (s : snapshot) (o : op) : snapshot :=
       match s_id s with
       | Some j => if negb (id_eqb j i) then s else
                  {| s_id := Some i; s_status := s_status s; s_title := title;
-                   s_comments := [{| c_id := i; c_author := au; c_msg := msg; c_files := []  (* op_create.go does not copy Files *); c_edits := 0 |}];
+                   s_comments := [{| c_id := i; c_author := au; c_msg := msg; c_files := files; c_edits := 0 |}];
                    s_labels := s_labels s; s_actors := add_once au (s_actors s); s_parts := add_once au (s_parts s);
                    s_timeline := [TComment i]; s_ops := s_ops s; s_extra := s_extra s |}
       | None => {| s_id := Some i; s_status := s_status s; s_title := title;
-                   s_comments := [{| c_id := i; c_author := au; c_msg := msg; c_files := []  (* op_create.go does not copy Files *); c_edits := 0 |}];
+                   s_comments := [{| c_id := i; c_author := au; c_msg := msg; c_files := files; c_edits := 0 |}];
                    s_labels := s_labels s; s_actors := add_once au (s_actors s); s_parts := add_once au (s_parts s);
                    s_timeline := [TComment i]; s_ops := s_ops s; s_extra := s_extra s |}
       end
@@ -94,6 +94,8 @@ Definition apply (s : snapshot) (o : op) : snapshot :=
          s_labels := s_labels s; s_actors := add_once au (s_actors s); s_parts := add_once au (s_parts s);
          s_timeline := s_timeline s ++ [TComment i]; s_ops := s_ops s; s_extra := s_extra s |}
   | OEditComment i au t msg files =>
+      (* the target must be the full id of an operation that created a comment (combined ids only keep 14 characters of it) *)
+      if negb (existsb (fun c => id_eqb (c_id c) t) (s_comments s)) then s else
       match timeline_target (s_timeline s) t with
       | Some (TComment _) =>
           {| s_id := s_id s; s_status := s_status s; s_title := s_title s; s_comments := upd_comment t msg files (s_comments s);
